@@ -617,6 +617,22 @@ extremum("etl::max_element<vf::gix<int, 0>>", "etl::max_element<vf::gix<int, 0>,
 extremum("etl::max_element<vf::gix<int, 0>, etl::greater<>>", None, "etl_max_element_gt", "largest", GT, False)
 
 
+# minmax_element: {first smallest, LAST largest} ([alg.min.max]); {first, first} for an empty range
+def mm(lo, hi, upto_):
+    """lo / hi are index expressions, upto_ the index of the last element looked at"""
+    return ["(%s && (long)vf_k <= %s) ==> (!(%s[vf_k] < %s[%s]) && !(%s[%s] < %s[vf_k]))" % (K, upto_, G, G, lo, G, hi, G),
+            "(%s && (long)vf_k < %s) ==> %s[%s] < %s[vf_k]" % (K, lo, G, lo, G),
+            "(%s && (long)vf_k > %s && (long)vf_k <= %s) ==> %s[vf_k] < %s[%s]" % (K, hi, upto_, G, G, hi)]
+
+
+fn("etl::minmax_element<vf::gix<int, 0>>", "etl_minmax_element", [R(grng()),
+   E("vf_n == 0 ? (RET.first.i == 0 && RET.second.i == 0) : (0 <= RET.first.i && RET.first.i < (long)vf_n && 0 <= RET.second.i && RET.second.i < (long)vf_n)")] +
+   [E("vf_n > 0 ==> (%s)" % c) for c in mm("RET.first.i", "RET.second.i", "(long)vf_n - 1")] + [A()])
+fn("etl::minmax_element<vf::gix<int, 0>, etl::less<>>", "etl_minmax_element_pred", [],
+   [[A("first.i, min.i, max.i")] +
+    [INV("1 <= first.i && first.i < last.i && last.i == (long)vf_n && 0 <= min.i && min.i <= first.i && 0 <= max.i && max.i <= first.i && !(%s[max.i] < %s[min.i]) && (%s)" % (G, G, c)) for c in mm("min.i", "max.i", "first.i")] +
+    [XDEC]])
+
 # is_sorted_until / is_sorted: first position i with comp(a[i], a[i-1]), or last; adjacent pairs before it are in order
 def sorted_until(name_outer, name_inner, alias, lt):
     cl = [R(rng()),
